@@ -49,6 +49,7 @@ type requestCache struct {
 	// allocation when many policies apply to an endpoint.
 	srcIPStr       string
 	dstIPStr       string
+	srcIPProtoPort string
 	dstIPProtoPort string
 }
 
@@ -131,6 +132,16 @@ func (r *requestCache) getDstIPProtoPortStr() string {
 		r.dstIPProtoPort = fmt.Sprintf("%s,%s:%d", r.getDstIPStr(), protocolStr, r.GetDestPort())
 	}
 	return r.dstIPProtoPort
+}
+
+// getSrcIPProtoPortStr returns the source "<IP>,<protocol>:<port>" key used for named port set
+// matching, memoized across the request.
+func (r *requestCache) getSrcIPProtoPortStr() string {
+	if r.srcIPProtoPort == "" {
+		protocolStr := protocolMapL4[int32(r.GetProtocol())]
+		r.srcIPProtoPort = fmt.Sprintf("%s,%s:%d", r.getSrcIPStr(), protocolStr, r.GetSourcePort())
+	}
+	return r.srcIPProtoPort
 }
 
 // getIPSet returns the IPSet with the given ID.
